@@ -370,6 +370,46 @@ def check_other_kex(st):
             judge_plain_rsa(bits, ['rsa-sha2-256'], res, 'text', wire.serialize(tree), st, 'kexpath')
 
 
+# ---- a key measured on one probe connection keeps its size and rating when a *later* probe connection fails while being set up
+def later_probe_fault_cases():
+    out = []
+    for bits in (1024, 2048):
+        for fault_site, fault in ((-1, ('refuse',)), (0, ('trunc_close', 0)), (0, ('trunc_stall', 4)), (1, ('len', 2, 'huge31')), (1, ('trunc_close', 20)), (2, ('type', 1))):
+            for conn in (2, 3):
+                for fmt in ('text', 'json'):
+                    out.append((bits, fault_site, fault, conn, fmt))
+    return out
+
+
+def work_later_probe_fault(chunk, st):
+    for bits, site, fault, conn, fmt in chunk:
+        tree = wire.rsa_blob_tree(bits)
+        names = ['rsa-sha2-512', 'rsa-sha2-256', 'ssh-rsa']
+        keys = names + ['ssh-ed25519', 'ecdsa-sha2-nistp256']
+        hk = {'ssh-rsa': tree, 'ssh-ed25519': wire.ed25519_blob_tree(), 'ecdsa-sha2-nistp256': wire.ecdsa_blob_tree(256)}
+        srv = P.Server(label='lp', kex=['curve25519-sha256'], key=keys, host_keys=hk, banner=b'SSH-2.0-OpenSSH_9.6')
+        res = H.audit(srv, opts=['-n', '--skip-rate-test'] + (['-j'] if fmt == 'json' else []), faults={('lp', conn, site): fault})
+        st.execution(res.world, outcome=('later-probe-fault', res.status, fmt), root=('later-probe-fault', bits, site, fault, conn, fmt), nontrivial=('later-probe-fault', bits, site, fault, conn, fmt))
+        if res.status not in (0, 2, 3) or res.hang or res.exc:
+            st.violation('later-probe-fault:audit-failed', {'bits': bits, 'fault': [conn, site, list(fault)], 'status': res.status, 'stdout': res.stdout[-300:]})
+            continue
+        # connection 1 fetched the RSA key (the first probed type the server has); whatever happens on connections 2 and 3, it stays measured
+        first = res.world.conns and [r for r in srv.records if r['index'] == 1]
+        if not first or first[0].get('negotiated', (None, None))[1] not in names:
+            continue
+        for name in names:
+            e = key_entry(res, fmt, name)
+            if e is None:
+                st.violation('later-probe-fault:key-not-reported', {'bits': bits, 'name': name, 'fault': [conn, site, list(fault)]})
+                continue
+            lv = expected_level(bits)
+            got = sorted(set(l for l, _t in size_notes(e['notes'])))
+            if e['size'] != bits or got != ([lv] if lv else []):
+                st.violation('later-probe-fault:size-or-rating-lost', {'bits': bits, 'name': name, 'fmt': fmt, 'fault_on_connection': conn, 'fault': [site, list(fault)],
+                                                                      'reported_size': e['size'], 'size_note_levels': got, 'expected_level': lv})
+    st.sample({'later_probe_fault': [chunk[0][0], chunk[0][1], list(chunk[0][2]), chunk[0][3]]}, cap=3)
+
+
 # ---- two audits in flight on two worker threads: every placement of one (quick) or two (thorough) thread switches at the receives
 CONC_ARCHS = ['CERTSMALLCA', 'CERTBIGCA', 'RSA1024', 'RSA4096', 'CLEAN', 'GEX2048OPENSSH']
 
@@ -406,6 +446,7 @@ def run(tier, seed):
     par.pmap(work_cert, cert_cases(), stats=st)
     par.pmap(work_multi, multi_cases(), stats=st)
     par.pmap(work_concurrent, concurrent_cases(tier), stats=st, chunk=1)
+    par.pmap(work_later_probe_fault, later_probe_fault_cases(), stats=st, chunk=4)
     check_other_kex(st)
     vcases = []
     for bits in H.pick(sizes, seed, 10 if tier == 'quick' else 60):
